@@ -1,7 +1,7 @@
 (* Dispatch: the three entry points the driver and the in-Coq cross-check use. *)
 From Coq Require Import String.
 From Coq Require Import List NArith ZArith Bool.
-From Verif Require Import GoStr GoNum GoHeader Sx Tables Route Forward Serve Wire Unit Monitors HistMon LimMon ConfigRun.
+From Verif Require Import GoStr GoNum GoHeader Sx Tables Route Forward Serve Wire Unit Monitors HistMon LimMon ConfigRun Crash.
 Import ListNotations.
 Open Scope N_scope.
 
@@ -19,6 +19,7 @@ Definition run (x : sx) : sx :=
   else if str_eqb fam (bytes "cfg") then run_cfg x
   else if str_eqb fam (bytes "reload") then run_reload x
   else if str_eqb fam (bytes "swap") then run_swap x
+  else if str_eqb fam (bytes "crash") then run_crash x
   else L [A (bytes "unknown-family")].
 
 Definition proj (x o : sx) : sx :=
@@ -28,6 +29,7 @@ Definition proj (x o : sx) : sx :=
   else if str_eqb fam (bytes "cache") then proj_cache o
   else if str_eqb fam (bytes "limrt") then proj_limrt o
   else if str_eqb fam (bytes "cfg") then proj_cfg o
+  else if str_eqb fam (bytes "crash") then proj_crash x o
   else o.
 
 Definition spec (prop : str) (x o : sx) : sx :=
@@ -48,6 +50,7 @@ Definition spec (prop : str) (x o : sx) : sx :=
   else if str_eqb fam (bytes "cfg") then mon_C19_cfg x o
   else if str_eqb fam (bytes "reload") then mon_C19_reload x o
   else if str_eqb fam (bytes "swap") then mon_C19_swap x o
+  else if str_eqb fam (bytes "crash") then mon_C14 x o
   else if str_eqb fam (bytes "route") then
     (if str_eqb prop (bytes "C01") then mon_C01 x o
      else if str_eqb prop (bytes "C02") then mon_C02 x o
